@@ -520,3 +520,10 @@ package j5schema
 //@   |   typeis(result0, *schema_j5pb.Field_Key) && rKey(result0) != nil && rKey(result0).Format != nil && typeis(rKey(result0).Format.Type, *schema_j5pb.KeyFormat_Custom_)
 //@   |   && as(*schema_j5pb.KeyFormat_Custom_, rKey(result0).Format.Type).Custom.Pattern == as(*ext_j5pb.KeyField_Pattern, jKey(ext).Type).Pattern
 //@   ensures plain: result1 == nil && ext.validate == nil && ext.list == nil && ext.j5 == nil && extof(ext_j5pb.E_Key, descOpts(src)) == nil ==> typeis(result0, *schema_j5pb.Field_String_)
+
+// a lookup by name in a schema set reports an error, an unlinked entry (nil) or a usable schema
+// (well-formedness of the package maps is the system invariant the builders maintain: ASSUMED here)
+//@ func (*SchemaSet).SchemaByName
+//@   free requires allPkgsOK()
+//@   modifies nothing
+//@   ensures usable: result1 == nil ==> result0 == nil || rootOK(result0)
